@@ -110,6 +110,10 @@ Definition fn_registered (t fn : N) : bool :=
   | None => false
   end.
 
+(* does the function's data type support partial updates (implements model.Updater: the list types)?
+   checked against FunctionData.SupportsPartialWrite by the harness at start-up *)
+Definition fn_partial (fn : N) : bool := negb (N.eqb fn 15 || N.eqb fn 25 || N.eqb fn 26).
+
 Definition all_fns : list N := map N.of_nat (seq 1 27).
 
 (* model.ErrorNumberType *)
@@ -136,10 +140,12 @@ Inductive payload :=
 | PSubReq (c : reg_call) | PSubDel (c : reg_call)
 | PBindReq (c : reg_call) | PBindDel (c : reg_call)
 | PSubData | PBindData             (* nodeManagementSubscriptionData / BindingData (empty: a request) *)
-| PDestList.                       (* nodeManagementDestinationListData *)
+| PDestList                        (* nodeManagementDestinationListData *)
+| PResult (err : N).               (* a resultData element under another classifier than result *)
 
 Inductive body :=
 | BResult (err : N)                (* cmdClassifier result, resultData.errorNumber *)
+| BResultWith (pl : payload)       (* cmdClassifier result whose cmd is NOT a resultData element but pl *)
 | BCmd (c : cls) (pl : payload).
 
 Record dgram := {
@@ -153,8 +159,11 @@ Record dgram := {
                                       never looks at it ("TODO check if cmd.Function is the same ...") *)
   d_sel : N                        (* a read restricted by a partial filter: 0 none, 1 the function's selectors,
                                       2 its elements (built by ReadCmdType); put on the wire for reads of data
-                                      functions only.  processRead ignores the filter: the reply carries the
-                                      full current data *)
+                                      functions.  processRead ignores the filter: the reply carries the
+                                      full current data.  On a WRITE of a data function whose type does not
+                                      support partial updates a non-zero value puts an (empty) partial filter on
+                                      the wire: FunctionData.UpdateData rejects it; on other writes nothing is
+                                      put on the wire (partial list updates are outside the token model) *)
 }.
 
 (* cmd.Data(): the function named by the eebus tag of the data field, and the token of its value *)
@@ -167,6 +176,7 @@ Definition pl_fn (pl : payload) : N :=
   | PBindReq _ => FN_BINDREQ | PBindDel _ => FN_BINDDEL
   | PSubData => FN_SUBDATA | PBindData => FN_BINDDATA
   | PDestList => FN_DEST
+  | PResult _ => FN_RESULT
   end.
 
 (* the notify form of detailed discovery data carries the partial filter (cmdControl.partial) *)
@@ -176,6 +186,7 @@ Definition pl_val (pl : payload) : N :=
   match pl with
   | PData _ v => v
   | PUseCase v => v
+  | PResult e => e
   | _ => 0
   end.
 
@@ -596,14 +607,19 @@ Definition process_result (s : st) (p : N) (en : rent) (rf : rfeat) (lf : lfeat)
 
 (* ------------------------------------------------------------------ FeatureLocal.HandleMessage *)
 (* processWrite / executeWrite (no write approval callbacks registered): sends its own results *)
+Definition write_refused (lf : lfeat) (d : dgram) (fn : N) : bool :=
+  negb (fn_registered (lf_type lf) fn)                      (* updateData: "data not found" *)
+  || (negb (N.eqb (d_sel d) 0) && negb (fn_partial fn)).    (* FunctionData.UpdateData: "partial updates are not supported" *)
+
 Definition process_write (s : st) (p : N) (lf : lfeat) (d : dgram) (fn v : N) : hres :=
-  if negb (fn_registered (lf_type lf) fn) then (s, [send_result p d local_dev E_GENERAL], None)
+  if write_refused lf d fn then (s, [send_result p d local_dev E_GENERAL], None)
   else (upd_lfeat s (lf_ent lf) (lf_id lf) (set_data fn v),
         if d_ack d then [send_result p d local_dev 0] else [], None).
 
 Definition fl_handle (s : st) (p : N) (en : rent) (rf : rfeat) (lf : lfeat) (d : dgram) : hres :=
   match d_body d with
   | BResult e => process_result s p en rf lf d e
+  | BResultWith _ => (s, [], Some E_GENERAL)      (* processResult: the cmd carries no resultData *)
   | BCmd c pl =>
       let fn := pl_fn pl in
       match c with
@@ -675,6 +691,7 @@ Definition nm_dispatch (s : st) (pe : peer) (lf : lfeat) (d : dgram) (c : cls) (
       | _ => err_general s                     (* reply / notify: "Not implemented" *)
       end
   | PData _ _ => (s, [], Some E_NOTSUPPORTED)   (* default: Cmd data not implemented *)
+  | PResult _ => err_general s                  (* not reached: nm_handle takes the ResultData branch first *)
   end.
 
 (* [b]: does HandleMessage reach the response callbacks for an accepted reply?  (false on the
@@ -694,11 +711,16 @@ Definition nm_reply_callbacks (b : bool) (p : N) (en : rent) (rf : rfeat) (lf : 
 Definition nm_handle (nm_reply_cbs : bool) (s : st) (pe : peer) (en : rent) (rf : rfeat) (lf : lfeat) (d : dgram) : hres :=
   match d_body d with
   | BResult e => process_result s (p_ski pe) en rf lf d e
+  | BResultWith _ => (s, [], Some E_GENERAL)    (* every handler rejects the classifier result for its payload *)
+  | BCmd c (PResult e) =>
+      (* the first case of the switch is `message.Cmd.ResultData != nil`: whatever the classifier,
+         a resultData element is processed as a result *)
+      process_result s (p_ski pe) en rf lf d e
   | BCmd c pl => nm_reply_callbacks nm_reply_cbs (p_ski pe) en rf lf d c pl (nm_dispatch s pe lf d c pl)
   end.
 
 (* ------------------------------------------------------------------ DeviceLocal.ProcessCmd *)
-Definition is_result_body (b : body) : bool := match b with BResult _ => true | _ => false end.
+Definition is_result_body (b : body) : bool := match b with BResult _ | BResultWith _ => true | _ => false end.
 
 (* the classifiers acknowledged by ProcessCmd itself (write handles its own) *)
 Definition ack_body (b : body) : bool :=
